@@ -169,8 +169,17 @@ def run_case(case):
         has_ext = any(path.endswith(e) for e in KNOWN)
         expect_rel = name if has_ext else name + EXT[engine]
         before = listing(root)
-        with under_test("save_ds"):
-            x.save_ds(ds, path, engine=engine)
+        via = case.get("first_via") or "save_ds"
+        with under_test(via):
+            if via == "save_ds":
+                x.save_ds(ds, path, engine=engine)
+            else:
+                # saving under a name that does not exist yet through the
+                # merging front end is a plain save
+                x.save_merge_ds(ds, path, engine=engine,
+                                overwrite={"merge_none": None,
+                                           "merge_true": True,
+                                           "merge_false": False}[via])
         new = listing(root) - before
         require(new == {expect_rel}, "file-name",
                 f"saving as {name!r} with {engine} created {sorted(new)}, "
@@ -312,7 +321,10 @@ def strategy(draw):
     return {"dims": dims, "vars": vars_, "attrs": attrs, "engine": engine,
             "name": name, "seed": draw(st.integers(0, 2**20)),
             "chunks": draw(st.sampled_from([None, 1, 2, "dict"])),
-            "merge": draw(st.booleans())}
+            "merge": draw(st.booleans()),
+            "first_via": draw(st.sampled_from(
+                [None, None, None, "merge_none", "merge_true",
+                 "merge_false"]))}
 
 
 PHASES = [
